@@ -88,6 +88,10 @@ def finish (year : Nat) (time : Bytes) (rel : Nat) (zone : Bytes) : Derive.Date 
     tzHour := parseOr zone 0 2 0
     tzMinute := parseOr zone 3 5 0 }
 
+/-- `match &s[p..p+1] { "-" => Earlier, "+" => Later, "Z" => Universal, _ => unreachable!() }` -/
+def relOf (c : Bytes) : Out Nat :=
+  if c == [45] then .ok 0 else if c == [43] then .ok 1 else if c == [90] then .ok 2 else .panic
+
 /-- `Date::from_primitive` on the bytes of a string primitive -/
 def readDate (data : Bytes) : Out Derive.Date :=
   if !utf8Valid data then .err
@@ -104,9 +108,7 @@ def readDate (data : Bytes) : Out Derive.Date :=
         | some p =>
           match strIndex data p (p + 1) with
           | .ok c =>
-            let rel : Out Nat :=
-              if c == [45] then .ok 0 else if c == [43] then .ok 1 else if c == [90] then .ok 2 else .panic
-            (match rel with
+            (match relOf c with
              | .ok rel =>
                match strIndex data 0 p, strIndex data (p + 1) data.length with
                | .ok time, .ok zone => .ok (finish year time rel zone)
